@@ -10,6 +10,22 @@ import (
 	"pault.ag/go/debian/deb"
 )
 
+// eagerEOFReaderAt is an io.ReaderAt that reports io.EOF together with the last bytes of its source, which the
+// io.ReaderAt contract allows ("may return either err == EOF or err == nil" when n == len(p) at the end of the input);
+// range-request and object-store readers behave like this.
+type eagerEOFReaderAt struct{ b []byte }
+
+func (e eagerEOFReaderAt) ReadAt(p []byte, off int64) (int, error) {
+	if off < 0 || off > int64(len(e.b)) {
+		return 0, io.EOF
+	}
+	n := copy(p, e.b[off:])
+	if off+int64(n) >= int64(len(e.b)) {
+		return n, io.EOF
+	}
+	return n, nil
+}
+
 func showData(b []byte) string {
 	s := adler32.Checksum(b)
 	return fmt.Sprintf("%d %d %d", len(b), s&0xffff, s>>16)
@@ -18,7 +34,23 @@ func showData(b []byte) string {
 func init() {
 	iter := func(a []string, mode string) string {
 		buf := []byte(arg(a, 0))
-		ar, err := deb.LoadAr(bytes.NewReader(buf))
+		rd := bytes.NewReader(buf)
+		switch mode {
+		case "sniff":
+			// the caller looked at the global magic before handing the reader over: LoadAr takes an io.ReaderAt, whose
+			// ReadAt does not depend on (or move) the read cursor
+			rd.Read(make([]byte, 8))
+			mode = ""
+		case "drain":
+			io.Copy(ioutil.Discard, rd) // e.g. the caller hashed the file first
+			mode = ""
+		}
+		var src io.ReaderAt = rd
+		if mode == "eagereof" {
+			src = eagerEOFReaderAt{buf}
+			mode = ""
+		}
+		ar, err := deb.LoadAr(src)
 		if err != nil {
 			return "notar"
 		}
